@@ -146,20 +146,30 @@ def build_cases(tier, seed):
         grng = random.Random(seed + 11)
         for j in range(n_gen):
             try:
-                p = PG.gen_program(grng, 2 + j % 7)
-                txt = p if isinstance(p, str) else getattr(p, "text", None) or str(p)
-                cases.append(("g%d" % j, "gen:typed", txt))
+                p = PG.gen_program(grng, tier, closed=(j % 5 != 0), want_terminating=False)
+                cases.append(("g%d" % j, "gen:typed", p.text))
                 gen_info["programs"] += 1
                 for n, mt in enumerate(PG.mutants(grng, p, 3)):
-                    mk, mtxt = mt if isinstance(mt, tuple) else ("mutant", mt)
-                    mtxt = mtxt if isinstance(mtxt, str) else getattr(mtxt, "text", None) or str(mtxt)
-                    cases.append(("g%d.%d" % (j, n), "gen:" + str(mk), mtxt))
+                    mk, mtxt = mt[0], mt[1]
+                    exp = mt[2] if len(mt) > 2 else None
+                    cases.append(("g%d.%d" % (j, n), "gen:mut:" + str(mk), mtxt))
                     gen_info["mutants"] += 1
+                    if exp is not None:
+                        gen_info.setdefault("expect", {})["g%d.%d" % (j, n)] = str(exp)
             except Exception as e:  # noqa: BLE001
                 gen_info.setdefault("errors", []).append(repr(e)[:200])
                 if len(gen_info["errors"]) > 5:
                     break
     return cases, gen_info
+
+
+def _expect_stats(expect, impl):
+    """how the generator's own prediction for a mutant (recorded, not enforced) compares with the implementation"""
+    st = {}
+    for i, e in expect.items():
+        key = "%s/%s" % (e, first_word(impl.get(i, "MISSING")))
+        st[key] = st.get(key, 0) + 1
+    return st
 
 
 def run(b, ps, tier, seed):
@@ -240,7 +250,8 @@ def run(b, ps, tier, seed):
         "annotation_dump_equal_on_accepted": [dump_equal, dump_total],
         "mismatches": len(mism),
         "verdict_mismatches": len(verdict_mism),
-        "proggen": gen_info,
+        "proggen": {k: v for k, v in gen_info.items() if k != "expect"},
+        "proggen_mutant_expectations": _expect_stats(gen_info.get("expect", {}), impl),
         "reference_checker": "none separate: the extracted model `typecheck` is itself the decision procedure for ProgOK "
                              "(C07_verdict_alg, closed under the global context)",
         "suite_wall_s": round(dt, 1),
